@@ -180,6 +180,18 @@ theorem chains_are_stale (c : Cfg) (g : GState α) (e : Ev α) (hg : GInv c g) :
     Stale c g.a e (obs g.gc (g.a.g.G + (yldNow g.a e).toNat)) (obs g.pc (g.a.g.P + (accNow g.a e).toNat)) :=
   gstale c g e hg
 
+/-- the dual-clock variant is only ever built with latencies ≥ 4 (Fifo.h:264-275), so `wf_dual` applies to every
+dual-clock FIFO the library builds; single-clock requests other than `Specific 0` / `AtMost 0` give latency ≥ 1 -/
+theorem chosen_latency_bounds (r : LatReq) (l : Nat) :
+    (chosenLatency true r = some l → 4 ≤ l) ∧
+    (chosenLatency false r = some l → r ≠ .specific 0 → r ≠ .atMost 0 → 1 ≤ l) := by
+  constructor
+  · intro h
+    cases r <;> simp [chosenLatency, mergeAtLeast, LatReq.resolve] at h
+    all_goals omega
+  · intro h h1 h2
+    cases r <;> simp [chosenLatency, LatReq.resolve] at h h1 h2 <;> omega
+
 /-! ### non-vacuity -/
 
 private def ev (pc qc push : Bool) (d : Nat) (pop : Bool) : Ev Nat :=
